@@ -98,6 +98,7 @@ Inductive opd :=
 | OpRef (k : keys) (orc : list (N * cbres))
 | OpMut (k : keys) (tbl : wtable) (orc : list (N * cbres))
 | OpIter (tg : target) (D : nat) (root0 root : option keys) (pre_steps : nat) (exact : bool) (maxn : nat) (resolve : bool)
+| OpRt (k : keys) (orc : list (N * cbres))
 | OpSnap.
 
 Definition read_bytes (lg : list (event L)) : obs :=
@@ -165,6 +166,16 @@ Definition run_op (t : node) (v : value L) (o : opd) : obs * value L :=
   | OpDe k tbl orc =>
       let '(r, v', lg) := run (wr_tbl tbl) (fun _ => true) (oracle_of orc) ODe t v k in
       (OL [res_obs r; OB (match r with ROk _ => negb (fin_of tbl lg) | _ => true end); log_obs lg; delta_obs v v'], v')
+  | OpRt k orc =>
+      (* C05: read, then write back what was read; the codec decodes what it encoded (Ser_proofs) *)
+      let '(r, v1, lg) := run (fun _ => LInner) (fun _ => true) (oracle_of orc) OSer t v k in
+      match r with
+      | ROk _ =>
+          let '(r2, v', lg2) := run (fun x => LOk x) (fun _ => true) (oracle_of orc) ODe t v k in
+          (OL [OZ 1; match r2 with ROk _ => OL [OZ 0] | RErr _ => match res_obs r2 with OL (_ :: e) => OL (OZ 1 :: e) | o => o end end;
+               OB true; log_obs lg; log_obs lg2; delta_obs v v'], v')
+      | RErr _ => (OL [OZ 0; match res_obs r with OL (_ :: e) => OL (OZ 1 :: e) | o => o end; log_obs lg], v1)
+      end
   | OpRef k orc =>
       let '(r, v', lg) := run (fun _ => LInner) (fun _ => true) (oracle_of orc) ORef t v k in
       (OL [match r with ROk _ => OL [OZ 0; read_value lg] | _ => res_obs r end; log_obs lg; delta_obs v v'], v')
